@@ -1529,3 +1529,45 @@ B('pkgA_inject_single_exit_guard_inverted', ['C02'], 'R02.b',
   (S, _INJ_TAIL_OLD, _INJ_SINGLE_EXIT % 'fb.varkw'))
 B('pkgA_inject_single_exit_touched_after_filter', ['C02'], 'R02.b',
   (S, _INJ_TAIL_OLD, (_INJ_SINGLE_EXIT % 'not fb.varkw').replace("    return f(", "    all_kwargs.update(injectables)\n    return f(")))
+# ------------------------------------------------------------------ seventh pass (round x)
+# the names only the chain binds, as a module constant (a frozenset built from other constants)
+_X_CONST_OLD = "_INNER_NAME = 'next'\n"
+_X_AVAIL_OLD = "    req_avail = set(preprovided) - set(['next', 'context'])\n"
+T('pkgA_twin_chain_bound_names_constant', ALL4,
+  (C, _X_CONST_OLD, "_INNER_NAME = 'next'\n_CTX_NAME = 'context'\n_BOUND_BY_CHAIN = frozenset([_INNER_NAME, _CTX_NAME])\n"),
+  (C, _X_AVAIL_OLD, "    req_avail = set(preprovided) - _BOUND_BY_CHAIN\n"),
+  (C, "    rn_avail = ep_avail | set(['context'])\n", "    rn_avail = ep_avail | {_CTX_NAME}\n"))
+B('pkgA_chain_bound_names_constant_lacks_context', ['C01', 'C04'], {'C01': 'R01.d', 'C04': 'R04'},
+  (C, _X_CONST_OLD, "_INNER_NAME = 'next'\n_BOUND_BY_CHAIN = frozenset([_INNER_NAME])\n"),
+  (C, _X_AVAIL_OLD, "    req_avail = set(preprovided) - _BOUND_BY_CHAIN\n"))
+
+# the (function, provides) pairs collected by a loop into one temporary that is re-used from phase to phase
+_X_SIGS_LOOP = ("    sigs = []\n    for mw in middlewares:\n        func = mw.%s\n        if func:\n            sigs.append((func, mw.%s))\n"
+                "    %s_funcs, %s_provides = list(zip(*sigs)) or ((), ())\n")
+_X_SIGS_EDITS = [
+    (C, "    req_sigs = [(mw.request, mw.provides)\n                for mw in middlewares if mw.request]\n"
+        "    req_funcs, req_provides = list(zip(*req_sigs)) or ((), ())\n", _X_SIGS_LOOP % ('request', 'provides', 'req', 'req')),
+    (C, "    rn_sigs = [(mw.render, mw.render_provides)\n               for mw in middlewares if mw.render]\n"
+        "    rn_funcs, rn_provides = list(zip(*rn_sigs)) or ((), ())\n", _X_SIGS_LOOP % ('render', 'render_provides', 'rn', 'rn'))]
+_X_EP_OLD = ("    ep_sigs = [(mw.endpoint, mw.endpoint_provides)\n               for mw in middlewares if mw.endpoint]\n"
+             "    ep_funcs, ep_provides = list(zip(*ep_sigs)) or ((), ())\n")
+T('pkgA_twin_sigs_loops_one_temporary', ALL4, *(_X_SIGS_EDITS + [(C, _X_EP_OLD, _X_SIGS_LOOP % ('endpoint', 'endpoint_provides', 'ep', 'ep'))]))
+B('pkgA_sigs_loops_endpoint_paired_with_provides', ['C01', 'C03'], {'C01': 'R01.d', 'C03': 'R03.d'},
+  *(_X_SIGS_EDITS + [(C, _X_EP_OLD, _X_SIGS_LOOP % ('endpoint', 'provides', 'ep', 'ep'))]))
+
+# the conversion loop of match_path in a closed helper of a new private module
+_X_MP_OLD = ("        ret = {}\n        match = self.regex.match(path)\n        if not match:\n            return None\n"
+             "        groups = match.groupdict()\n        try:\n            for conv_name, conv in self.converters.items():\n"
+             "                ret[conv_name] = conv(groups[conv_name])\n        except (KeyError, TypeError, ValueError):\n"
+             "            return None\n        return ret\n")
+_X_MP_NEW = ("        match = self.regex.match(path)\n        if not match:\n            return None\n        try:\n"
+             "            return convert_groups(self.converters, match.groupdict())\n        except (KeyError, TypeError, ValueError):\n"
+             "            return None\n")
+_X_MP_IMPORT = (R, "from .sinter import inject, get_arg_names, get_fb, get_callable_name\n",
+                "from .sinter import inject, get_arg_names, get_fb, get_callable_name\nfrom ._urlconv import convert_groups\n")
+_X_HELPER = ('"""Private helpers of the URL pattern language."""\n\n\ndef convert_groups(converters, groups):\n    ret = {}\n'
+             '    for conv_name, conv in converters.items():\n        ret[conv_name] = %s\n    return ret\n')
+T('pkgA_twin_match_path_helper_in_private_module', ['C01', 'C02', 'C04'],
+  ('clastic/_urlconv.py', '__NEW__', _X_HELPER % 'conv(groups[conv_name])'), _X_MP_IMPORT, (R, _X_MP_OLD, _X_MP_NEW))
+B('pkgA_match_path_helper_in_private_module_raw_values', ['C02'], 'R02.d',
+  ('clastic/_urlconv.py', '__NEW__', _X_HELPER % 'groups[conv_name]'), _X_MP_IMPORT, (R, _X_MP_OLD, _X_MP_NEW))
